@@ -23,7 +23,7 @@ static void run() {
     auto &a = vp::args();
     vp::CaseScope scope([] { return ser(g_cfg, g_stream); });
     bool T = a.thorough();
-    vp::stats().rule = "enum: per (transport, memory width, block size): valid write requests of every total length from capacity-20 to capacity+20; read requests with every block size from the "
+    vp::stats().rule = "enum: per (transport, memory width, block size; octet sources, chunk sources, chunk sources lending a 2..64-octet buffer through the getbuffer extension): valid write requests of every total length from capacity-20 to capacity+20; read requests with every block size from the "
                        "transmit limit -8 to +8; allocation failure at every allocation (single and pairs) of multi-frame streams; empty frames and frames of 1..11 octets; every truncation point of "
                        "a multi-frame stream; invalid SLIP escapes / over-long varint prefixes inside streams; random mutated streams; oracle = reference stream walker + per-frame expectations "
                        "(access count and arguments, resource replies, error ids), allocation ledger, ASan/UBSan, endpoint-call budget";
@@ -34,7 +34,8 @@ static void run() {
     if (T) for (size_t e = 2; e < 300; e += 9) extras.push_back(e);
     for (int serial = 0; serial < 2; serial++) for (int mem16 = 0; mem16 < 2; mem16++) for (size_t extra : extras) {
         size_t capacity = 1 + extra;
-        Config cfg{(bool)serial, (bool)mem16, (bool)(extra & 1), extra, 0};
+        static const int SRCK[] = {0, 1, 1, 0, 4, 9, 10, 11, 16, 64};
+        Config cfg{(bool)serial, (bool)mem16, SRCK[(extra * 7 + (size_t)serial * 3 + (size_t)mem16) % 10], extra, 0};
         // (1) frame lengths around the block boundary
         for (long L = (long)capacity - 20; L <= (long)capacity + 20; L++) {
             if (!mine()) continue;
@@ -84,14 +85,14 @@ static void run() {
                                      rp::make_meta(serial, 1), rp::make_request(serial, true, !mem16, 3, 0x30, 1, payload(!mem16 ? 2 : 1, 2)), rp::make_request(serial, false, mem16, 0xffff, 0xffffffffu, 0, {})};
         Bytes s; for (auto &f : fs) { Bytes w = wire(serial, f); s.insert(s.end(), w.begin(), w.end()); }
         for (size_t extra : {(size_t)40, (size_t)100}) {
-            for (unsigned i = 0; i < 6; i++) for (unsigned j = i; j < 6; j++) { if (!mine()) continue; run_case({(bool)serial, (bool)mem16, true, extra, (1ull << i) | (1ull << j)}, s, "allocation-failure"); }
-            for (size_t cut = 0; cut <= s.size(); cut++) { if (!mine()) continue; run_case({(bool)serial, (bool)mem16, (bool)(cut & 1), extra, 0}, Bytes(s.begin(), s.begin() + (long)cut), "stream-ends-inside-frame"); }
+            for (int sk : {1, 0, 2, 3, 4, 5, 7, 9, 10, 11, 13, 16, 17, 40}) for (unsigned i = 0; i < 6; i++) for (unsigned j = i; j < 6; j++) { if (!mine()) continue; run_case({(bool)serial, (bool)mem16, sk, extra, (1ull << i) | (1ull << j)}, s, sk >= 2 ? "allocation-failure:source-lends-buffer" : "allocation-failure"); }
+            for (size_t cut = 0; cut <= s.size(); cut++) { if (!mine()) continue; run_case({(bool)serial, (bool)mem16, (int)(cut % 3 == 2 ? 2 + cut % 17 : cut & 1), extra, 0}, Bytes(s.begin(), s.begin() + (long)cut), "stream-ends-inside-frame"); }
             for (size_t at = 0; at < s.size(); at++) {
                 if (!mine()) continue;
                 Bytes d = s;
                 if (serial) { d.insert(d.begin() + (long)at, {0xdb, 0x41}); }                                   // invalid escape
                 else { Bytes bad(11, 0xff); d.insert(d.begin() + (long)at, bad.begin(), bad.end()); }          // prefix without terminator (stream loses sync: only generic expectations)
-                run_case({(bool)serial, (bool)mem16, true, extra, 0}, d, "channel-error-injected");
+                run_case({(bool)serial, (bool)mem16, (int)(at % 4 == 3 ? 2 + at % 13 : 1), extra, 0}, d, "channel-error-injected");
             }
         }
     }
@@ -111,7 +112,7 @@ static void run() {
             s.insert(s.end(), w.begin(), w.end());
         }
         if (rng.chance(1, 6) && !s.empty()) s.resize(rng.below(s.size()));
-        Config cfg{serial, mem16, rng.chance(1, 2), (size_t)rng.below(rng.chance(1, 2) ? 60 : 300), rng.chance(1, 4) ? (rng.next() & rng.next() & 0xff) : 0};
+        Config cfg{serial, mem16, rng.chance(1, 3) ? (int)rng.range(2, 40) : (int)rng.below(2), (size_t)rng.below(rng.chance(1, 2) ? 60 : 300), rng.chance(1, 4) ? (rng.next() & rng.next() & 0xff) : 0};
         run_case(cfg, s, "random-mutated-stream");
     }
 }
